@@ -1,14 +1,16 @@
 import Model.C05.PsbtMap
 import Model.C05.Misc
+import Model.C05.TxValid
 /-
 Typed layer of the PSBT maps (`psbt/psbt_in.py`, `psbt_out.py`, `psbt.py`: parse / serialize).
 
 The typed object is modelled the way the code builds it: `fromRecs` is the dispatch loop of `parse`
 (`fields[field] = value` for a whole-value field, `fields[field][k[1:]] = value` for a key-data field,
 `unknown[k] = v` for the rest) and `toRecs` is the loop of `serialize` over the emission table
-(`_SERIALIZED_FIELDS`): skip a field dropped once finalized, skip a falsy value, write one record for a
-whole-value field and `sorted(dict.items())` for a dict.  `Proofs/C05/PsbtTyped.lean` proves that this
-loop equals "sort by (field rank, key) what is left after an explicit drop predicate".
+(`_SERIALIZED_FIELDS`): skip a field this version does not write, skip a field dropped once finalized,
+skip a falsy value, write one record for a whole-value field and `sorted(dict.items())` for a dict.
+`Proofs/C05/PsbtTyped.lean` proves that this loop equals "sort by (field rank, key) what is left after an
+explicit drop predicate".
 
 `PsbtIn.parse` reads the map (map layer), then sends every record through the deserializer of its
 field type: whole-value fields (`_WHOLE_VALUE_FIELDS`, the key must be the type byte alone) and
@@ -21,10 +23,14 @@ the records in emission order (map layer `sortRecs inRank`), minus
     unless the field is in `_PRESENT_IF_NOT_NONE`;
   * once the input is finalized (a truthy final scriptSig or final witness): every field of
     `_DROPPED_ONCE_FINALIZED`.
-The four tables and the emission order are regenerated from the source (`Generated/Wire.lean`).
-Semantic checks (`Tx.assert_valid`, MoneyRange, duplicate key origins, curve points …) are not
-modelled: the correspondence is one-sided there (what the model refuses, btclib refuses; what btclib
-accepts, the model accepts with the same octets).  Core Lean only.
+ALL the tables are regenerated from the source (`Generated/Wire.lean`): emission order, whole / key-data
+fields, version tables, `_PRESENT_IF_NOT_NONE`, `_DROPPED_ONCE_FINALIZED`, the finalizing fields, and the
+`(type, value kind, size)` tables `PSBT_*_KINDS` that say which deserializer reads each value -- the value
+check (`valueOkBy`), the never-falsy objects (`objectsOf`) and the non-empty falsy values (`emptyIsOf`) are
+computed from those.  What the deserializers check whatever `check_validity` says is modelled too:
+`Tx.assert_valid` behind `deserialize_tx`, MoneyRange behind `TxOut.parse(v)`, and
+`assert_valid_hd_key_paths` behind `decode_hd_key_paths` in the constructors (key length, pairwise
+distinct key origins: `Spec.distinctOk`).  Core Lean only.
 -/
 namespace Btc.Psbt
 open Btc Btc.Wire
@@ -36,37 +42,91 @@ def isOk {ε α : Type} : Except ε α → Bool
   | .ok _ => true
   | .error _ => false
 
-/-- `BIP32KeyOrigin.parse(v)` with the default check_validity: at most 255 path elements -/
+/-- `BIP32KeyOrigin.parse(v)` with the default check_validity: at most `KEYORIGIN_MAX_PATH` path elements -/
 def keyOriginOk (v : Bytes) : Bool :=
   match keyOriginParseAll v with
-  | .ok k => decide (k.2.length ≤ 255)
+  | .ok k => decide (k.2.length ≤ Gen.Wire.KEYORIGIN_MAX_PATH)
   | .error _ => false
 
 /-- `assert_valid_hd_key_paths`: a derivation is keyed by a 33/65-byte public key or a 78-byte xpub -/
-def hdKeyLenOk (kd : Bytes) : Bool := kd.length == 33 || kd.length == 65 || kd.length == 78
+def hdKeyLenOk (kd : Bytes) : Bool := Gen.Wire.HD_KEY_LENGTHS.contains kd.length
 
 /-- `parse_taproot_bip32` -/
 def tapBip32Ok (v : Bytes) : Bool :=
   match VarInt.parse v Gen.VarInt.MAX_SIZE with
   | .error _ => false
-  | .ok (n, rest) => if n * 32 + 4 > rest.length then false else keyOriginOk (rest.drop (n * 32))
+  | .ok (n, rest) =>
+    if n * Gen.Wire.LEAF_HASH_SIZE + Gen.Wire.FINGERPRINT_SIZE > rest.length then false
+    else keyOriginOk (rest.drop (n * Gen.Wire.LEAF_HASH_SIZE))
 
-/-- the structural part of the deserializer of field type `ty` on value `v` -/
-def valueOkIn (ty : Nat) (v : Bytes) : Bool :=
-  if ty = Gen.Wire.PSBT_IN_NON_WITNESS_UTXO then isOk (tx.parseAll v)
-  else if ty = Gen.Wire.PSBT_IN_WITNESS_UTXO then isOk (txOut.parseAll v)
-  else if ty = Gen.Wire.PSBT_IN_FINAL_SCRIPTWITNESS then isOk (witness.parseAll v)
-  else if Gen.Wire.PSBT_IN_UINT32.contains ty then v.length = 4
-  else if Gen.Wire.PSBT_IN_TXID.contains ty then v.length = 32
-  else if Gen.Wire.PSBT_IN_KEYORIGIN.contains ty then keyOriginOk v
-  else if Gen.Wire.PSBT_IN_LEAF.contains ty then !v.isEmpty                       -- script ‖ leaf version
-  else if Gen.Wire.PSBT_IN_TAPBIP32.contains ty then tapBip32Ok v
-  else if Gen.Wire.PSBT_IN_MUSIG.contains ty then !v.isEmpty && v.length % 33 == 0
+/-- `parse_taproot_tree`: (depth, leaf version, var_bytes script)* up to the end of the value -/
+def tapTreeOk : Nat → Bytes → Bool
+  | _, [] => true
+  | 0, _ :: _ => false
+  | _ + 1, [_] => false
+  | fuel + 1, _ :: _ :: rest =>
+    match varBytes.parse rest with
+    | .error _ => false
+    | .ok (_, r) => tapTreeOk fuel r
+
+/-- `deserialize_count`: one canonical CompactSize and nothing else -/
+def countOk (v : Bytes) : Bool :=
+  match VarInt.parse v Gen.VarInt.MAX_SIZE with
+  | .ok (_, []) => true
+  | _ => false
+
+/-- the unsigned transaction of a version 0 psbt: `deserialize_tx(…, False, unsigned_template=True)` (the
+    stripped serialization must give the value back: no marker; `Tx.assert_valid` of a template), then
+    `_assert_unsigned` ("non empty script_sig or witness") -/
+def unsignedTxOk (v : Bytes) : Bool :=
+  match tx.parseAll v with
+  | .ok t => !t.isSegwit && t.assertValid true && t.vin.all (fun i => i.scriptSig.isEmpty)
+  | .error _ => false
+
+/-- the deserializer of value kind `kind` (codes `Gen.Wire.VK_*`, read off the parse tables of the source)
+    on value `v`: does it answer? -/
+def valueOkKind (kind size : Nat) (v : Bytes) : Bool :=
+  if kind = Gen.Wire.VK_UINT ∨ kind = Gen.Wire.VK_SINT ∨ kind = Gen.Wire.VK_FIXED then v.length == size
+  else if kind = Gen.Wire.VK_TX then                      -- `deserialize_tx`: parse, then `assert_valid()`
+    match tx.parseAll v with
+    | .ok t => t.assertValid false
+    | .error _ => false
+  else if kind = Gen.Wire.VK_UNSIGNED_TX then unsignedTxOk v
+  else if kind = Gen.Wire.VK_TXOUT then                   -- `TxOut.parse(v)`, validity checked
+    match txOut.parseAll v with
+    | .ok o => moneyRange o.value
+    | .error _ => false
+  else if kind = Gen.Wire.VK_WITNESS then isOk (witness.parseAll v)
+  else if kind = Gen.Wire.VK_KEYORIGIN then keyOriginOk v
+  else if kind = Gen.Wire.VK_LEAF then !v.isEmpty           -- script ‖ leaf version
+  else if kind = Gen.Wire.VK_TAPBIP32 then tapBip32Ok v
+  else if kind = Gen.Wire.VK_MUSIG then !v.isEmpty && v.length % Gen.Wire.MUSIG2_PUB_KEY_SIZE == 0
+  else if kind = Gen.Wire.VK_TAPTREE then tapTreeOk v.length v
+  else if kind = Gen.Wire.VK_COUNT then countOk v
   else true
 
+/-- value check of field type `ty` under a generated `(type, kind, size)` table -/
+def valueOkBy (kinds : List (Nat × Nat × Nat)) (ty : Nat) (v : Bytes) : Bool :=
+  match kinds.lookup ty with
+  | some (k, sz) => valueOkKind k sz v
+  | none => true
+
+/-- field types whose value decodes to an object that is never falsy (a transaction, an output) -/
+def objectsOf (kinds : List (Nat × Nat × Nat)) : List Nat :=
+  (kinds.filter (fun e => e.2.1 == Gen.Wire.VK_TX || e.2.1 == Gen.Wire.VK_UNSIGNED_TX
+    || e.2.1 == Gen.Wire.VK_TXOUT)).map (·.1)
+
+/-- field types whose falsy value is not the empty octet string, with that value: the empty witness stack
+    `00`, the integer zero in its width; fields written under `is not None` (`pin`) have no falsy value -/
+def emptyIsOf (kinds : List (Nat × Nat × Nat)) (pin : List Nat) : List (Nat × Bytes) :=
+  kinds.filterMap (fun e =>
+    if pin.contains e.1 then none
+    else if e.2.1 == Gen.Wire.VK_WITNESS || e.2.1 == Gen.Wire.VK_COUNT then some (e.1, [0])
+    else if e.2.1 == Gen.Wire.VK_UINT || e.2.1 == Gen.Wire.VK_SINT then some (e.1, List.replicate e.2.2 0)
+    else none)
 
 /-- `assert_valid_psbt_version`: the versions `parse` and `serialize` take -/
-def admitsVersion (ver : Nat) : Bool := ver == 0 || ver == 2
+def admitsVersion (ver : Nat) : Bool := Gen.Wire.PSBT_VERSIONS.contains ver
 
 /-- the tables one map kind is parsed and serialized by -/
 structure Spec where
@@ -81,6 +141,7 @@ structure Spec where
   emptyIs : List (Nat × Bytes)  -- fields whose falsy value is not the empty octet string
   finals : List Nat             -- a truthy value here makes the map "finalized"
   droppedOnceFinal : List Nat
+  hd : List Nat                 -- dicts `decode_hd_key_paths` checks: key length, pairwise distinct key origins
   valueOk : Nat → Bytes → Bool
   keyOk : Nat → Bytes → Bool    -- check on the key data of a key-data field
 
@@ -124,6 +185,11 @@ def dropped (fin : Bool) (r : Rec) : Bool :=
 
 def kept (recs : List Rec) : List Rec := recs.filter (fun r => !s.dropped (s.finalized recs) r)
 
+/-- `assert_valid_hd_key_paths` ("Duplicated key origin values"), reached through `decode_hd_key_paths` in
+    the constructor whatever `check_validity` says: inside each dict of `hd` the values are pairwise distinct -/
+def distinctOk (recs : List Rec) : Bool :=
+  s.hd.all (fun ty => decide (((recs.filter (fun r => tyOf r.1 == ty)).map (·.2)).Nodup))
+
 end Spec
 
 /-- the typed object: the fields `parse` fills -/
@@ -159,6 +225,11 @@ def emit (s : Spec) (ver : Nat) (t : Typed) (fin : Bool) (ty : Nat) : List Rec :
 /-- `serialize` -/
 def toRecs (s : Spec) (ver : Nat) (t : Typed) : List Rec := s.order.flatMap (emit s ver t (t.finalized s))
 
+/-- `X(**fields, check_validity=False).serialize(psbt_version=ver, check_validity=False)` on a typed object
+    given field by field (the `*.torecs` streams: objects built by the constructors, no parser involved) -/
+def serTyped (s : Spec) (ver : Nat) (t : Typed) : Except Err Bytes :=
+  if !admitsVersion ver then .error .invalid else .ok (serMap (toRecs s ver t))
+
 /-- `X.parse(b, psbt_version=ver).serialize(psbt_version=ver)` on the octets of one map -/
 def reser (s : Spec) (ver : Nat) (b : Bytes) : Except Err Bytes :=
   match parseMap b with
@@ -166,7 +237,7 @@ def reser (s : Spec) (ver : Nat) (b : Bytes) : Except Err Bytes :=
   | .ok (recs, rest) =>
     if !admitsVersion ver then .error .invalid
     else if !rest.isEmpty then .error .trailing
-    else if recs.all (s.recordOk ver) then .ok (serMap (toRecs s ver (fromRecs s recs)))
+    else if recs.all (s.recordOk ver) && s.distinctOk recs then .ok (serMap (toRecs s ver (fromRecs s recs)))
     else .error .invalid
 
 def runReser (s : Spec) (ver : Nat) (b : Bytes) : String :=
@@ -183,86 +254,50 @@ def specIn : Spec where
   v2only := Gen.Wire.PSBT_IN_V2_ONLY
   v0only := []
   presentIfNotNone := Gen.Wire.PSBT_IN_PRESENT_IF_NOT_NONE
-  objects := [Gen.Wire.PSBT_IN_NON_WITNESS_UTXO, Gen.Wire.PSBT_IN_WITNESS_UTXO]
-  emptyIs := [(Gen.Wire.PSBT_IN_FINAL_SCRIPTWITNESS, [0])]     -- the empty witness stack
+  objects := objectsOf Gen.Wire.PSBT_IN_KINDS
+  emptyIs := emptyIsOf Gen.Wire.PSBT_IN_KINDS Gen.Wire.PSBT_IN_PRESENT_IF_NOT_NONE   -- the empty witness stack
   finals := Gen.Wire.PSBT_IN_FINALS
   droppedOnceFinal := Gen.Wire.PSBT_IN_DROPPED_ONCE_FINALIZED
-  valueOk := valueOkIn
-  keyOk := fun ty kd => !Gen.Wire.PSBT_IN_KEYORIGIN.contains ty || hdKeyLenOk kd
+  hd := Gen.Wire.PSBT_IN_HD
+  valueOk := valueOkBy Gen.Wire.PSBT_IN_KINDS
+  keyOk := fun ty kd => !Gen.Wire.PSBT_IN_HD.contains ty || hdKeyLenOk kd
 
 -- ------------------------------------------------------------------ output maps (psbt/psbt_out.py)
 /- `PsbtOut.parse / serialize` are written out field by field; their tables are read off the syntax
    tree of those functions by `tools/specs/wire.py` (`Gen.Wire.PSBT_OUT_*`). -/
-
-/-- `parse_taproot_tree`: (depth, leaf version, var_bytes script)* up to the end of the value -/
-def tapTreeOk : Nat → Bytes → Bool
-  | _, [] => true
-  | 0, _ :: _ => false
-  | _ + 1, [_] => false
-  | fuel + 1, _ :: _ :: rest =>
-    match varBytes.parse rest with
-    | .error _ => false
-    | .ok (_, r) => tapTreeOk fuel r
-
-def valueOkOut (ty : Nat) (v : Bytes) : Bool :=
-  if ty = 3 then v.length = 8
-  else if ty = 10 then v.length = 4
-  else if ty = 6 then tapTreeOk v.length v
-  else if ty = 2 then keyOriginOk v
-  else if ty = 7 then tapBip32Ok v
-  else if ty = 8 then !v.isEmpty && v.length % 33 == 0
-  else true
-
 def specOut : Spec where
   order := Gen.Wire.PSBT_OUT_ORDER
   whole := Gen.Wire.PSBT_OUT_WHOLE
   keyed := Gen.Wire.PSBT_OUT_KEYED
   v2 := Gen.Wire.PSBT_OUT_V2
-  v2only := Gen.Wire.PSBT_OUT_V2
+  v2only := Gen.Wire.PSBT_OUT_V2_ONLY
   v0only := []
   presentIfNotNone := Gen.Wire.PSBT_OUT_PRESENT_IF_NOT_NONE
-  objects := []
-  emptyIs := []
-  finals := []
+  objects := objectsOf Gen.Wire.PSBT_OUT_KINDS
+  emptyIs := emptyIsOf Gen.Wire.PSBT_OUT_KINDS Gen.Wire.PSBT_OUT_PRESENT_IF_NOT_NONE
+  finals := []                    -- `PsbtOut.serialize` has no finalizer rule
   droppedOnceFinal := []
-  valueOk := valueOkOut
-  keyOk := fun ty kd => ty != 2 || hdKeyLenOk kd
+  hd := Gen.Wire.PSBT_OUT_HD
+  valueOk := valueOkBy Gen.Wire.PSBT_OUT_KINDS
+  keyOk := fun ty kd => !Gen.Wire.PSBT_OUT_HD.contains ty || hdKeyLenOk kd
 
 -- ------------------------------------------------------------------ global map (psbt/psbt.py)
-/-- `deserialize_count`: one canonical CompactSize and nothing else -/
-def countOk (v : Bytes) : Bool :=
-  match VarInt.parse v Gen.VarInt.MAX_SIZE with
-  | .ok (_, []) => true
-  | _ => false
-
-/-- the unsigned transaction of a version 0 psbt: `deserialize_tx(…, include_witness=False)` -/
-def unsignedTxOk (v : Bytes) : Bool :=
-  match tx.parseAll v with
-  | .ok t => !t.isSegwit && t.vin.all (fun i => i.scriptSig.isEmpty)   -- "non empty script_sig or witness"
-  | .error _ => false
-
-def valueOkGlobal (ty : Nat) (v : Bytes) : Bool :=
-  if ty = Gen.Wire.PSBT_GLOBAL_UNSIGNED_TX then unsignedTxOk v
-  else if Gen.Wire.PSBT_GLOBAL_UINT32.contains ty then v.length = 4
-  else if Gen.Wire.PSBT_GLOBAL_COUNTS.contains ty then countOk v
-  else if ty = Gen.Wire.PSBT_GLOBAL_TX_MODIFIABLE then v.length = 1
-  else if ty = Gen.Wire.PSBT_GLOBAL_XPUB then keyOriginOk v
-  else true
-
 def specGlobal : Spec where
   order := Gen.Wire.PSBT_GLOBAL_ORDER
   whole := Gen.Wire.PSBT_GLOBAL_WHOLE
   keyed := Gen.Wire.PSBT_GLOBAL_KEYED
   v2 := Gen.Wire.PSBT_GLOBAL_V2
-  v2only := Gen.Wire.PSBT_GLOBAL_V2
-  v0only := [Gen.Wire.PSBT_GLOBAL_UNSIGNED_TX]
+  v2only := Gen.Wire.PSBT_GLOBAL_V2_ONLY
+  v0only := Gen.Wire.PSBT_GLOBAL_V0_ONLY
   presentIfNotNone := Gen.Wire.PSBT_GLOBAL_PRESENT_IF_NOT_NONE
-  objects := [Gen.Wire.PSBT_GLOBAL_UNSIGNED_TX]
-  emptyIs := [(Gen.Wire.PSBT_GLOBAL_VERSION, [0, 0, 0, 0])]   -- `if self.version:` — version 0 is not written
-  finals := []
+  objects := objectsOf Gen.Wire.PSBT_GLOBAL_KINDS
+  -- `if self.version:` — version 0 is not written
+  emptyIs := emptyIsOf Gen.Wire.PSBT_GLOBAL_KINDS Gen.Wire.PSBT_GLOBAL_PRESENT_IF_NOT_NONE
+  finals := []                    -- `Psbt.serialize` has no finalizer rule for the global map
   droppedOnceFinal := []
-  valueOk := valueOkGlobal
-  keyOk := fun ty kd => ty != Gen.Wire.PSBT_GLOBAL_XPUB || hdKeyLenOk kd
+  hd := Gen.Wire.PSBT_GLOBAL_HD
+  valueOk := valueOkBy Gen.Wire.PSBT_GLOBAL_KINDS
+  keyOk := fun ty kd => !Gen.Wire.PSBT_GLOBAL_HD.contains ty || hdKeyLenOk kd
 
 /-- `_global_version`: the value of the version record, 0 when there is none -/
 def globalVersion (recs : List Rec) : Nat :=
@@ -283,7 +318,7 @@ def reserGlobal (b : Bytes) : Except Err Bytes :=
   | .error e => .error e
   | .ok (recs, _) =>
     let ver := globalVersion recs
-    if ver != 0 && ver != 2 then .error .invalid
+    if !admitsVersion ver then .error .invalid
     else if !requiredOk ver recs then .error .invalid
     else reser specGlobal ver b
 
@@ -291,5 +326,21 @@ def runReserGlobal (b : Bytes) : String :=
   match reserGlobal b with
   | .error _ => "err refused"
   | .ok out => s!"ok {toHex out}"
+
+/-- a typed object given as three record lists: whole-value fields (key = the type byte), key-data fields
+    (key = type byte ‖ key data), unknown records -/
+def typedOf (w k u : List Rec) : Typed where
+  whole := w.map (fun r => (tyOf r.1, r.2))
+  keyed := k.map (fun r => (tyOf r.1, keyData r.1, r.2))
+  unknown := u
+
+/-- `<map>.torecs <ver> <whole>,<keyed>,<unknown>` (each a serialized record list) -/
+def runSerTyped (s : Spec) (ver : Nat) (w k u : Bytes) : String :=
+  match parseMap w, parseMap k, parseMap u with
+  | .ok (rw, []), .ok (rk, []), .ok (ru, []) =>
+    match serTyped s ver (typedOf rw rk ru) with
+    | .error _ => "err refused"
+    | .ok out => s!"ok {toHex out}"
+  | _, _, _ => "bad-op"
 
 end Btc.Psbt
